@@ -65,6 +65,9 @@ C19_OK(e) ==
      /\ \/ (e.auto /\ sib /\ TRUE \in prefer /\ asGz)
         \/ (~(e.auto /\ sib /\ prefer = {TRUE}) /\ asPlain)
      /\ (e.res.k = "node") => /\ e.res.name \in Inside
+                              \* as an entity: refused exactly for non-regular nodes, length = file size
+                              /\ e.res.ent_ok = ~e.res.dir
+                              /\ e.res.ent_ok => e.res.ent_len = e.res.size
                               /\ (e.res.vary = "accept-encoding") <=> e.auto
                               /\ e.res.vary \in {"", "accept-encoding"}
                               /\ e.res.varies = e.auto
